@@ -54,6 +54,8 @@ def jobs():
     add("starmap", (IT, "starmap"), (RI, "starmap"), src_pred(fname="function"))
     add("accumulate[f]", (IT, "accumulate"), (RI, "accumulate"), one_src([F("function")]))
     add("accumulate[f,initial]", (IT, "accumulate"), (RI, "accumulate"), one_src([F("function")], {"initial": V("initial")}))
+    add("accumulate[default add]", (IT, "accumulate"), (RI, "accumulate"), one_src())
+    add("accumulate[default add,initial]", (IT, "accumulate"), (RI, "accumulate"), one_src(kw={"initial": V("initial")}))
     add("cycle", (IT, "cycle"), (RI, "cycle"), one_src(), opts={"accumulates": "documented: cycle stores all items"})
     # aggregations
     add("all", (B, "all"), (RB, "all"), one_src(), kind="coro", props=P_AGG + ("C05",))
